@@ -33,6 +33,8 @@ pub struct RunOpts {
     pub final_obs: bool,
     /// override backend (C16 differential)
     pub force_fd: Option<bool>,
+    /// after every reopen ask topic_is_clean for every topic (C17)
+    pub marker_probes: bool,
 }
 
 #[derive(Clone, Debug, Default, Serialize, Deserialize)]
@@ -61,6 +63,8 @@ pub struct Run {
     pub out: Outcome,
     pending_peek: Option<(Op, Resp)>,
     pub reopens: u32,
+    /// a marker changed (append / mark) since the last reopen or settle sleep
+    marker_changed: bool,
 }
 
 pub const DATA_DIR: &str = "data";
@@ -84,6 +88,7 @@ impl Run {
             out: Outcome::default(),
             pending_peek: None,
             reopens: 0,
+            marker_changed: false,
         };
         r.spawn_and_open()?;
         Ok(r)
@@ -294,8 +299,24 @@ impl Run {
                 v.push(Step::Do(Op::Count { inst: 0, t }));
             }
             AbsOp::CountAll => v.push(Step::Do(Op::CountAll { inst: 0 })),
-            AbsOp::Reopen { fresh } => v.push(if *fresh { Step::ReopenFresh } else { Step::ReopenInProc }),
-            AbsOp::ClockRegress => v.push(Step::ClockRegress),
+            AbsOp::Reopen { .. } | AbsOp::ClockRegress => {
+                if self.marker_changed && self.opts.exclude.contains("marker-settle-before-reopen") {
+                    // known finding: a marker change is lost when the instance goes away inside
+                    // the persister's coalescing window; give it 50x that window
+                    self.excluded("marker-settle-before-reopen");
+                    v.push(Step::Do(Op::Sleep { ms: 250 }));
+                }
+                v.push(match op {
+                    AbsOp::Reopen { fresh: true } => Step::ReopenFresh,
+                    AbsOp::Reopen { fresh: false } => Step::ReopenInProc,
+                    _ => Step::ClockRegress,
+                });
+                if self.opts.marker_probes {
+                    for t in 0..self.nt() as u32 {
+                        v.push(Step::Do(Op::IsClean { inst: 0, t }));
+                    }
+                }
+            }
             AbsOp::Reject { t, kind } => {
                 let t = self.tix(*t);
                 match kind {
@@ -416,7 +437,19 @@ impl Run {
                 }
                 let is_peek_like = matches!(op, Op::ReadNext { ck: false, .. } | Op::BatchRead { ck: false, .. } | Op::BatchRead { off: Some(_), .. });
                 if !is_peek_like {
-                    self.out.obs.push(format!("{:?} => {:?}", op, resp));
+                    // errors are compared by kind (messages may name backend-specific details)
+                    let shown = match &resp {
+                        Resp::Err { kind, .. } => format!("Err({})", kind),
+                        other => format!("{:?}", other),
+                    };
+                    self.out.obs.push(format!("{:?} => {}", op, shown));
+                }
+                if self.reopens > 0 {
+                    if let (Op::ReadNext { ck: true, .. } | Op::BatchRead { ck: true, off: None, .. }, Resp::Some(_) | Resp::List(_)) = (op, &resp) {
+                        if !matches!(&resp, Resp::List(v) if v.is_empty()) {
+                            self.feat("data_after_reopen");
+                        }
+                    }
                 }
                 let pending = self.pending_peek.take();
                 self.check_op(op, &resp, pending)
@@ -430,6 +463,10 @@ impl Run {
     fn reopen(&mut self, fresh: bool, clock: bool) -> Check {
         self.pending_peek = None;
         self.reopens += 1;
+        if self.marker_changed {
+            self.feat("reopen_after_marker_change");
+            self.marker_changed = false;
+        }
         if fresh {
             if let Some(c) = self.child.take() {
                 let code = c.exit(false);
@@ -529,7 +566,9 @@ impl Run {
                         self.cache.insert((*t, *seq, *len), hs[0]);
                     }
                     let id = ent_id(*t, *seq, *len, &mut self.cache);
-                    self.model.on_append_ok(*t, id);
+                    if self.model.on_append_ok(*t, id) {
+                        self.marker_changed = true;
+                    }
                     let (rot, mu) = {
                         let tm = &self.model.topics[*t as usize];
                         (tm.rotations, tm.multi_unit_blocks)
@@ -547,12 +586,18 @@ impl Run {
                 }
                 Resp::Err { .. } => {
                     self.feat("append_err");
+                    self.model.topics[*t as usize].clean_unknown = true;
                     Ok(())
                 }
                 other => viol(Oracle::Crash, format!("append: {}", other.short())),
             },
             Op::Batch { t, seq0, lens, .. } => match resp {
-                Resp::Ok if lens.is_empty() => Ok(()),
+                Resp::Hashes(hs) if lens.is_empty() && hs.is_empty() => {
+                    // an empty batch appends nothing; whether it counts as "an append" for the
+                    // dirty marker is not specified
+                    self.model.topics[*t as usize].clean_unknown = true;
+                    Ok(())
+                }
                 Resp::Hashes(hs) if hs.len() == lens.len() => {
                     let before = self.model.topics[*t as usize].rotations;
                     for (i, l) in lens.iter().enumerate() {
@@ -562,7 +607,9 @@ impl Run {
                             self.cache.insert((*t, seq0 + i as u64, *l), hs[i]);
                         }
                         let id = ent_id(*t, seq0 + i as u64, *l, &mut self.cache);
-                        self.model.on_append_ok(*t, id);
+                        if self.model.on_append_ok(*t, id) {
+                            self.marker_changed = true;
+                        }
                         if *l == 0 {
                             self.feat("zero_len_entry");
                         }
@@ -585,20 +632,23 @@ impl Run {
                 }
                 Resp::Err { .. } => {
                     self.feat("batch_err");
+                    self.model.topics[*t as usize].clean_unknown = true;
                     Ok(())
                 }
                 other => viol(Oracle::Crash, format!("batch append: {}", other.short())),
             },
-            Op::BatchAlias { n, len, .. } => match resp {
+            Op::BatchAlias { n, len, t, .. } => match resp {
                 Resp::Err { .. } => {
+                    self.model.topics[*t as usize].clean_unknown = true;
                     self.feat("rejected_batch");
                     Ok(())
                 }
                 Resp::Ok => viol(Oracle::Reject, format!("batch of {} x {} bytes was accepted", n, len)),
                 other => viol(Oracle::Crash, format!("oversized batch: {}", other.short())),
             },
-            Op::AppendZero { len, .. } => match resp {
+            Op::AppendZero { len, t, .. } => match resp {
                 Resp::Err { .. } => {
+                    self.model.topics[*t as usize].clean_unknown = true;
                     self.feat("rejected_append");
                     Ok(())
                 }
@@ -697,15 +747,33 @@ impl Run {
                 other => viol(Oracle::Crash, format!("count_all: {}", other.short())),
             },
             Op::MarkClean { t, .. } => {
+                if !self.model.topics[*t as usize].clean || self.model.topics[*t as usize].clean_unknown {
+                    self.marker_changed = true;
+                }
                 self.model.topics[*t as usize].clean = true;
+                self.model.topics[*t as usize].clean_unknown = false;
                 Ok(())
             }
             Op::MarkDirty { t, .. } => {
+                if self.model.topics[*t as usize].clean || self.model.topics[*t as usize].clean_unknown {
+                    self.marker_changed = true;
+                }
                 self.model.topics[*t as usize].clean = false;
+                self.model.topics[*t as usize].clean_unknown = false;
+                Ok(())
+            }
+            Op::Sleep { ms } => {
+                if *ms >= 250 {
+                    self.marker_changed = false;
+                }
                 Ok(())
             }
             Op::IsClean { t, .. } => match resp {
                 Resp::Bool(b) => {
+                    if self.model.topics[*t as usize].clean_unknown {
+                        self.model.topics[*t as usize].clean = *b;
+                        self.model.topics[*t as usize].clean_unknown = false;
+                    }
                     if *b != self.model.topics[*t as usize].clean {
                         return viol(Oracle::Marker, format!("topic {} reports clean={} but the model says clean={}", t, b, self.model.topics[*t as usize].clean));
                     }
